@@ -237,7 +237,7 @@ func (g *GRE) NextLayerType() gopacket.LayerType {
 }
 
 func (g *GRE) VerifyChecksum() (error, gopacket.ChecksumVerificationResult) {
-	bytes := append(g.Contents, g.Payload...)
+	bytes := append(g.Contents[:len(g.Contents):len(g.Contents)], g.Payload...)
 
 	existing := g.Checksum
 	verification := gopacket.ComputeChecksum(bytes, 0)
